@@ -21,7 +21,7 @@ var (
 	reNotation = regexp.MustCompile(`^\s*//\s*:(\S+)\s*(.*)$`)
 	// reConvergen is a regular expression that matches a notation that
 	// indicates the beginning of a convergen block.
-	reConvergen = regexp.MustCompile(`^\s*//\s*:convergen\b`)
+	reConvergen = regexp.MustCompile(`^\s*//\s*:convergen(\s|$)`)
 )
 
 // parseNotationInComments parses given notations and set the values into given Options.
